@@ -376,6 +376,7 @@ func (alloc *Action) allocateForJob(job *api.JobInfo, jobWorksheet *JobWorksheet
 	}
 
 	alloc.recorder.SnapshotSubJobStatus(job, jobWorksheet)
+	alloc.recorder.ResetDecisions(job.UID)
 
 	hyperNodeGradients := ssn.HyperNodeGradientForJobFn(job, hyperNodeToAllocate, api.PurposeAllocate)
 	for gradient, hyperNodes := range hyperNodeGradients {
